@@ -78,20 +78,21 @@ def r2_hash_iteration(ctx):
 
 
 def r3_user_generator_kept(ctx):
-    """K6 on optimize_with over the typed store (statemodel): the user's init_state closure runs on the fresh state and
-    either supplies a generator or does not; when the configuration starts, the state holds the user's generator
-    untouched, or - only if none was supplied - exactly one default generator; init_state runs before the generator is
-    looked for and the configuration runs after both."""
+    """K6 over the typed store (statemodel), with Configuration::run followed down to the root component's phases:
+    (a) optimize_with - the user's init_state closure runs on the fresh state and either supplies a generator or does not;
+    when the first phase of the root component runs, the generator the state shows is the user's, untouched, or - only if
+    none was supplied - exactly one default generator, and init_state ran before the generator was looked for;
+    (b) run on a state whose ENCLOSING scope holds the user's generator (a sub-configuration run inside a Scope): the
+    phases see that generator and nothing shadows it."""
     import statemodel
     from collmodel import coll_oracle, install, load
     F = ctx.facts
-    fn = F.fn("mahf::configuration::Configuration::optimize_with")
     RND = "mahf::state::random::Random"
+    COMPK = "mahf::components::Component::"
     bad = []
-    for has in (True, False):
-        store = statemodel.Store(F, levels=1, auto=lambda ty: {})
 
-        def oracle(interp, env, f, args, t, bb, path, has=has, store=store):
+    def mk(store, has):
+        def oracle(interp, env, f, args, t, bb, path):
             k = f.get("key", "")
             ms = interp.mstate
             if k == "core::ops::function::FnOnce::call_once" or (f.get("name") in ("call_once", "call") and args and isinstance(load(interp, env, args[0]), Sym) and load(interp, env, args[0]).tag == "init_state"):
@@ -99,18 +100,25 @@ def r3_user_generator_kept(ctx):
                 if has:
                     store.put(interp, env, RND, 0, Sym("the-user's-generator"))
                 return ok(Agg("tuple", None, None, []))
-            if k == "mahf::configuration::Configuration::run":
+            if k in (COMPK + "init", COMPK + "require", COMPK + "execute"):
                 v = store.visible_value(interp, env, RND, 0)
-                ms["log"] = ms.get("log", ()) + (("run", repr(v)),)
+                ms["log"] = ms.get("log", ()) + ((f.get("name"), repr(v), tuple(sorted(l for (ty, l) in ms.get("have", ()) if ty == RND))),)
                 return ok(Agg("tuple", None, None, []))
+            if k == "mahf::state::State::requirements":
+                return Sym("requirements")
             if k in (RDEF, "core::default::Default::default") and not args:
                 n = ms.get("defaults", 0) + 1
                 ms["defaults"] = n
                 return Sym("entropy-random#%d" % n)
             return TOP
-        helper = lambda k: statemodel.inline(k) or k.startswith("mahf::state::State::new") or (k.startswith("mahf::configuration::Configuration::") and k != "mahf::configuration::Configuration::run"
-                                                    and (F.fn_opt(k) is not None and F.fn_opt(k).vis not in ("pub", "public")))
-        it = install(Interp(fn.body, chain(oracle, store, coll_oracle, std_oracle), [Sym("self"), Sym("problem"), Sym("init_state")], facts=F, inline=helper))
+        return oracle
+    helper = lambda k: statemodel.inline(k) or k.startswith("mahf::state::State::new") or k == "mahf::configuration::Configuration::run" or (
+        k.startswith("mahf::configuration::Configuration::") and (F.fn_opt(k) is not None and F.fn_opt(k).vis not in ("pub", "public")))
+    # (a) optimize_with
+    fn = F.fn("mahf::configuration::Configuration::optimize_with")
+    for has in (True, False):
+        store = statemodel.Store(F, levels=1, auto=lambda ty: {})
+        it = install(Interp(fn.body, chain(mk(store, has), store, coll_oracle, std_oracle), [Sym("self", boxlike=True), Sym("problem"), Sym("init_state")], facts=F, inline=helper))
         it.init_state = {}
         store.install(it)
         paths = it.run()
@@ -118,21 +126,41 @@ def r3_user_generator_kept(ctx):
         if len(paths) != 1 or not okp:
             bad.append((has, "is not decided / has no successful path (%s)" % [(p.end, str(p.ret)[:40]) for p in paths]))
             continue
-        p = okp[0]
-        log = list(p.mstate.get("log", ()))
+        log = list(okp[0].mstate.get("log", ()))
         kinds = [e[0] for e in log]
-        if kinds != ["init_state", "run"]:
-            bad.append((has, "does not run init_state once and then the configuration once: %s" % kinds))
+        if kinds != ["init_state", "init", "require", "execute"]:
+            bad.append((has, "does not run init_state once and then the configuration's init, require, execute: %s" % kinds))
             continue
         if "Random" in log[0][1]:
             bad.append((has, "inserts a generator before the user's init_state ran"))
             continue
-        at_run = log[1][1]
-        if has and at_run != repr(Sym("the-user's-generator")):
-            bad.append((has, "starts the configuration with %s as generator although the user's init_state supplied one (the seed is replaced)" % at_run))
-        if not has and at_run != repr(Sym("entropy-random#1")):
-            bad.append((has, "starts the configuration with %s as generator when none was supplied (expected exactly one default generator)" % at_run))
+        seen = {e[1] for e in log[1:]}
+        if has and seen != {repr(Sym("the-user's-generator"))}:
+            bad.append((has, "runs the configuration with %s as generator although the user's init_state supplied one (the seed is replaced)" % sorted(seen)))
+        if not has and seen != {repr(Sym("entropy-random#1"))}:
+            bad.append((has, "runs the configuration with %s as generator when none was supplied (expected exactly one default generator)" % sorted(seen)))
     ctx.check(not bad, "C08.R3", fn.key, "default-generator-only-if-absent", "user supplied a generator: %s - optimize_with %s" % (bad[0] if bad else ("", "")), loc=fn.loc())
+    # (b) run inside a scope whose surroundings hold the user's generator
+    fn = F.fn("mahf::configuration::Configuration::run")
+    store = statemodel.Store(F, levels=2, auto=lambda ty: {1: Sym("the-user's-generator")} if ty == RND else {})
+    it = install(Interp(fn.body, chain(mk(store, False), store, coll_oracle, std_oracle), [Sym("self", boxlike=True), Sym("problem"), Sym("state")], facts=F, inline=helper))
+    it.init_state = {}
+    store.install(it)
+    paths = it.run()
+    why = ""
+    if len(paths) != 1 or paths[0].end != "return" or not (isinstance(paths[0].ret, Agg) and paths[0].ret.variant == "Ok"):
+        why = "is not decided / does not complete (%s)" % [(p.end, str(p.ret)[:40]) for p in paths]
+    else:
+        log = list(paths[0].mstate.get("log", ()))
+        seen = {(e[1], e[2]) for e in log}
+        if [e[0] for e in log] != ["init", "require", "execute"]:
+            why = "does not run init, require, execute once each: %s" % [e[0] for e in log]
+        elif any(v != repr(Sym("the-user's-generator")) for (v, _h) in seen) and any(v != repr(None) for (v, _h) in seen):
+            why = "runs its phases with %s as generator (held by scope levels %s) although the enclosing scope holds the user's generator: a generator the user supplied is never replaced or shadowed" % (
+                sorted(v for (v, _h) in seen), sorted(h for (_v, h) in seen))
+        elif any(h not in ((), (1,)) for (_v, h) in seen):
+            why = "puts a generator of its own into the current scope (levels %s)" % sorted(h for (_v, h) in seen)
+    ctx.check(not why, "C08.R3", fn.key, "enclosing-generator-is-used", "run() inside a scope whose enclosing scope holds the user's generator %s" % why, loc=fn.loc())
 
 
 def r4_parallel(ctx):
